@@ -1,13 +1,39 @@
-"""counterexample replay (stub, filled in later)"""
-import json, os
+"""violation records.  A record names the failed obligation and carries the verifier's output (solver verdict, reason,
+counter-model of the verification condition when the solver produced one).  Native replay of a counter-model against the
+real code is not implemented: every VIOLATION line therefore ends with no-failing-input-found (DESIGN 0.2)."""
+import hashlib
+import json
+import os
+
 from .run import VERIF
 
-def make_replay(prop, o, unit, repo):
+
+def make_replay(prop, o, unit, repo, extra=None):
     os.makedirs(os.path.join(VERIF, 'replays'), exist_ok=True)
-    path = os.path.join(VERIF, 'replays', '%s-%s.json' % (prop, abs(hash(o['name'] + o['unit'])) % 10**8))
-    json.dump({'property': prop, 'obligation': o['name'], 'unit': o['unit'], 'model': o.get('model'), 'goal': o.get('goal')}, open(path, 'w'), indent=1)
+    h = hashlib.sha256((o['name'] + '|' + o['unit']).encode()).hexdigest()[:8]
+    path = os.path.join(VERIF, 'replays', '%s-%s.json' % (prop, h))
+    rec = {'property': prop, 'obligation': o['name'], 'unit': o['unit'], 'kind': o.get('kind'), 'source_line': o.get('line'),
+           'contract_file': unit.path, 'contract_line': (o.get('info') or {}).get('clause_line'),
+           'clause': (o.get('info') or {}).get('expr'),
+           'verdict': o.get('status'), 'backend': o.get('backend'), 'solver_reason': o.get('reason'), 'solver_s': o.get('time'),
+           'weak_model': bool(o.get('weak_model')),
+           'counter_model_of_the_vc': o.get('model'), 'goal_tail_smt2': o.get('goal'),
+           'failing_input_found': False,
+           'how_to_rerun': './check %s --units %s -v' % (prop, o['unit'].split(':')[-1])}
+    if extra:
+        rec.update(extra)
+    json.dump(rec, open(path, 'w'), indent=1, default=str)
     return path, False
 
+
 def run_replay_file(path):
-    print(open(path).read())
-    return 0
+    """re-run the unit of a recorded violation on the current tree and report whether the obligation still fails"""
+    import subprocess
+    import sys
+    rec = json.load(open(path))
+    unit = rec['unit'].split(':')[-1]
+    p = subprocess.run([sys.executable, '-m', 'pyvc.run', rec['property'], '--units', unit, '-v'], cwd=VERIF, capture_output=True, text=True)
+    core = rec['obligation'].split('@')[0]
+    still = [ln for ln in p.stdout.splitlines() if core in ln and ('refuted' in ln or 'unknown' in ln or 'VIOLATION' in ln)]
+    print('\n'.join(still) if still else 'obligation %s is discharged on the current tree' % core)
+    return 1 if still else 0
